@@ -4,6 +4,7 @@ import NixModel.Lemmas.C20HistDel
 import NixModel.Lemmas.C20DelObj
 import NixModel.Store.CopyFrames
 import NixModel.Lemmas.StoreWF
+import NixModel.Lemmas.C20Shallow
 
 /-!
 # C20 — copies are complete, independent, and keep their internal links
@@ -22,23 +23,38 @@ produces), both id policies; `src` and `dst` may be the same graph (same-file co
 ones (cross-file copy).
 
 Theorems: `copy_complete`, `internal_links`, `ids_kept`, `ids_fresh` (+ `ids_fresh_distinct`),
-`name_used`, `dup_refused` (+ `dup_refused_existing`), `source_untouched`, `shallow_contents`, and
+`name_used`, `dup_refused` (+ `dup_refused_existing`), `source_untouched`, `shallow_contents`,
+`shallow_section_result` (the final state of `copy_section(children=False)` after the re-adding loop), and
 independence: `copy_closed`, `path_stays_in_copy`, `old_links` (the two sides are separated),
 `independent_setAttr`, `independent_createProperty`, `independent_create_entity`,
 `independent_append` (a call addressed to one side changes only that side),
+`independent_history` (+ `_observed`, `sideInv_after_copy`, `idInv_after_copy`): **any history** of API
+calls made on the copy's side leaves every node of the destination file as it was,
 `independent_delete_old_side` / `independent_delete_new_side` (deletion, when the other side does not
 carry the deleted ids).
+
+Tie to the source text: `harness/extract/copyshape.py` renders `H5Group.copy` and the eight copy entry
+points as data (`Generated/CopyShape.lean`); `h5GroupCopy_source_is_model`, `entryPoints_shape_ok`,
+`entryPoints_kinds`, `entry_point_source_is_generic`, `copyBlock_source`, `copyIntoBlock_source`,
+`copyProperty_source`, `copySection_source`, `copyFrameIntoBlock_is_generic` show, for all arguments,
+that the interpretation of the generated shapes is the model the theorems speak about
+(`create_data_frame(copy_from=…)` has no hand-written model: the driver executes the generated shape).
+`reachable_file_ok` / `reachable_entity_has_id`: the hypotheses `FileOk`, `IdsBelow`, "the source has
+an id" hold for every file the API builds.
 
 Partial / modelled:
 * deletion is global by `entity_id` (`deleteAll`), so after an id-keeping copy *within one file*
   deleting on one side removes the same-id objects of the other side (DESIGN D13, open known
   finding `C20-delete-hits-same-id-copy`, shared with C04): `independent_delete_full` is false —
   `independent_delete_partial` (ids regenerated) + `independent_delete_counterexample`;
+  `independent_history` admits entity deletions only with regenerated ids (`gd`); for the proposed
+  repair (deletion by object, `reports/C20-delete-by-object.*`) the full statement is proved:
+  `repaired_delete_old_side` / `repaired_delete_new_side`;
   for copies into another file the two sides are two graphs and no function of one sees the other;
-* independence is proved per kind of call (attribute setters, `create_property`, `Entity.create_new`
-  behind every other `create_*`, link-list `append`, deletion), through frame lemmas that name the
-  nodes a call can change; role-link setters (`metadata`, `positions` …) are `createLinkIn` on the
-  addressed node and are covered by the same frame (`same_createLinkIn`) but have no theorem of their own;
+* `independent_history` is the direction "calls on the copy's side (all entity arguments from that
+  side) do not change the rest of the file"; the converse direction (calls on the source side do not
+  change the copy) is proved per kind of call (`independent_*`), not yet for histories: the source
+  side is not link-closed (the destination container links the copy's root);
 * HDF5's `H5Ocopy` semantics are modelled (`copyNodes`), not verified; dataset *contents* (array
   data, property values, data frames) are outside the graph model (oracle only).
 -/
@@ -509,6 +525,62 @@ theorem shallow_contents {src dst : Graph} {owner obj : Nat} {cls name : String}
     · rw [hg]; exact core_nkind_new hd (hmem l hl)
     · intro a ha
       rw [hg, copyMap, core_getAttr_new hd hself (hmem l hl) a ha, if_neg (fun h => hne h.1)]
+
+theorem child?_of_links_map {src g' : Graph} {o r : Nat} {f : Nat → Nat}
+    (h : g'.links r = (src.links o).map (fun l => (l.1, f l.2))) (n : String) :
+    g'.child? r n = (src.child? o n).map f := by
+  rw [child?_eq, child?_eq, h, List.find?_map]
+  have : ((fun l : String × Nat => l.1 == n) ∘ fun l : String × Nat => (l.1, f l.2)) = fun l => l.1 == n := rfl
+  rw [this]
+  cases (src.links o).find? (fun l => l.1 == n) <;> rfl
+
+/-- **shallow section copy, final result** (`copy_section(children=False)`, after the properties were
+re-added): the copy's `properties` group holds one entry per Property of the source, in the
+source's order, each linked under the Property's name, with that `name` attribute and every other
+attribute of the source Property (the id too when ids are kept); the section itself has the source's
+attributes and the requested name; nothing else of the source is below it (`shallow_contents`: the
+other member groups are empty). For every source section whose Properties are Properties, every
+destination, both id policies. -/
+theorem shallow_section_result {src dst : Graph} (hdst : FileOk dst) (destOwner : Option Path) (owner : Nat)
+    (cls : String) (obj : Nat) (keepId : Bool) (name : String) {g'' : Graph}
+    (hd : sectionDest dst destOwner = some (owner, cls)) (h0 : owner ∈ keys dst)
+    (hk : kindOf src obj = "section") (hself : src.child? obj "properties" ≠ some obj)
+    (hprops : ∀ p ∈ propsOf src obj, kindOf src p.2 = "property")
+    (hc : copySection src dst destOwner obj false keepId name = .ok g'') :
+    ∃ d1 root, copyGeneric src dst owner cls obj name true keepId = .ok (d1, root) ∧
+      Pairwise₂ (PropCopied src keepId g'') (propsOf g'' root) (propsOf src obj) ∧
+      (∀ a, (a ≠ "entity_id" ∨ keepId = true) → a ≠ "name" → g''.getAttr root a = src.getAttr obj a) ∧
+      g''.getAttr root "name" = some (effName src obj name) := by
+  rw [copySection_generic src dst destOwner owner cls obj false keepId name hd hk h0] at hc
+  cases hcg : copyGeneric src dst owner cls obj name (!false) keepId with
+  | error e => rw [hcg] at hc; cases hc
+  | ok res =>
+    obtain ⟨d1, root⟩ := res
+    rw [hcg] at hc
+    simp only [Bool.false_eq_true, ↓reduceIte] at hc
+    have hcg' : copyGeneric src dst owner cls obj name true keepId = .ok (d1, root) := hcg
+    obtain ⟨hr, hlinks, hattrs, hmembers⟩ := shallow_contents hdst hcg'
+    have hfo := fileOk_copyGeneric hdst h0 hcg'
+    have hnu := name_used hdst hcg'
+    have hroot : root ∈ keys d1 := hfo.target _ _ (child?_some_mem hnu.1)
+    have hsec : kindOf d1 root = "section" := by
+      rw [kindOf_eq, hattrs "~kind" (.inl (by decide)) (by decide), ← kindOf_eq]; exact hk
+    have hempty : propsOf d1 root = [] := by
+      unfold propsOf
+      rw [child?_of_links_map hlinks "properties"]
+      cases hsp : src.child? obj "properties" with
+      | none => rfl
+      | some pc0 =>
+        simp only [Option.map_some]
+        have hne : pc0 ≠ obj := fun e => hself (by rw [hsp, e])
+        exact (hmembers ("properties", pc0) (child?_some_mem hsp) hne).1
+    obtain ⟨h1, _, h3, _⟩ := readdProps_result (propsOf src obj) d1 g'' [] hfo hroot hsec hprops
+      (by rw [hempty]; exact .nil) hc
+    have hlt := hfo.lt root hroot
+    refine ⟨d1, root, hcg', by simpa using h1, ?_, ?_⟩
+    · intro a ha hna
+      rw [h3 root hlt a]; exact hattrs a ha hna
+    · rw [h3 root hlt "name"]; exact hnu.2.1
 
 /-- a block `b` (2) with array `a` (4, `id:0`) and tag `t` (6, `id:1`) whose `references` group (7)
 links the array -/
@@ -999,6 +1071,15 @@ get fresh ids -/
 example : ((callerBy Gen.h5GroupCopy Gen.fileCopySection sectionFile sectionFile 0 2 "s2" true false).toOption.map
     fun r => (r.2, r.1.entityId 5, r.1.entityId 7, r.1.getAttr 5 "name")) =
     some (5, some "id:10", some "id:11", some "s2") := by decide
+
+/-- non-vacuity of `shallow_section_result`: `File.copy_section(s, children=False, keep_id=False, name="s2")`
+yields the section (5, fresh id) with one Property `p` (7, fresh id) re-added into its emptied
+`properties` group (6) -/
+example : ((copySection sectionFile sectionFile none 2 false false "s2").toOption.map
+    fun (g : Graph) => (propsOf g 5, g.entityId 7)) = some ([("p", 7)], some "id:11") ∧
+    ((copySection sectionFile sectionFile none 2 false false "s2").toOption.map
+    fun (g : Graph) => (g.entityId 5, g.links 5, g.getAttr 7 "name")) =
+      some (some "id:10", [("properties", 6)], some "p") := by decide
 
 open Nix.Store.CopyShape in
 /-- the same call with a visitor that skips datasets (`if not isinstance(igrp, h5py.Group): return`):
